@@ -3,7 +3,7 @@
 From Coq Require Import NArith List Bool.
 From Falcon Require Import Base.Res Graph.NMap Graph.NMapFacts Graph.Graph Graph.GraphInv Graph.Algo Graph.Spec
   Graph.Oracle Graph.OracleProofs Graph.ReachProofs Graph.C11Check Graph.SemiNca3 Graph.Small3 Graph.DomTheory
-  Graph.OrderProofs Graph.LoopProofs Graph.BackEdges.
+  Graph.OrderProofs Graph.LoopProofs Graph.BackEdges Graph.PreOrderProofs.
 Import ListNotations.
 Local Open Scope N_scope.
 
@@ -168,3 +168,22 @@ Theorem back_edges_correct : forall (V E : Type) (HV : Vertex V) (HE : Edge E) (
   exists be, compute_back_edges g r = Ok be /\ forall a b, In (a, b) be <-> back_edge (edge_keys g) r a b.
 Proof. intros V E HV HE g r doms Hgi. exact (BackEdges.back_edges_correct g Hgi r doms). Qed.
 Print Assumptions back_edges_correct.
+
+(* [U] remove_unreachable_vertices: a consistent graph with exactly the reachable vertices and the edges
+   between them *)
+Theorem remove_unreachable_correct : forall (V E : Type) (HV : Vertex V) (HE : Edge E) (g : graph V E) r,
+  GraphInv.graph_inv g -> has_vertex g r = true ->
+  exists g', remove_unreachable_vertices g r = Ok g' /\ GraphInv.graph_inv g' /\
+    (forall v, has_vertex g' v = true <-> (has_vertex g v = true /\ reach (edge_keys g) r v)) /\
+    (forall h t, has_edge g' h t = true <->
+                 (has_edge g h t = true /\ reach (edge_keys g) r h /\ reach (edge_keys g) r t)).
+Proof. intros V E HV HE g r. exact (ReachProofs.remove_unreachable_correct g r). Qed.
+Print Assumptions remove_unreachable_correct.
+
+(* [U] compute_pre_order (explicit stack, visited on pop): a duplicate-free enumeration of exactly the
+   reachable vertices (that it is a DFS pre-order is checked per output by the oracle pre_order_ok) *)
+Theorem pre_order_perm : forall (V E : Type) (HV : Vertex V) (HE : Edge E) (g : graph V E) r,
+  GraphInv.graph_inv g -> has_vertex g r = true ->
+  exists l, compute_pre_order g r = Ok l /\ NoDup l /\ forall v, In v l <-> reach (edge_keys g) r v.
+Proof. intros V E HV HE g r Hgi Hr. exact (PreOrderProofs.compute_pre_order_correct g Hgi r Hr). Qed.
+Print Assumptions pre_order_perm.
